@@ -104,6 +104,25 @@ def cases(tier, rng):
     for expr in ("x > cl + 100", "cl < 0 or x > 100", "[cl, x] == []"):
         yield "closure-rebound", {"dom": "expr", "expr": expr, "env": {"x": 1}, "params": ["x"], "layout": "oneline",
                                   "rebind_cl": [9, -3, 5]}
+    # the program tightens the limits of its Repr object after the contracts were declared
+    for params, expr, env in BIG[:8]:
+        for kind in ("require", "ensure", "invariant"):
+            c = {"dom": "expr", "expr": expr, "env": env, "params": list(params), "layout": "oneline", "kind": kind,
+                 "a_repr": dict(SMALL, maxlist=30, maxstring=200), "a_repr_after": {"maxlist": 2, "maxstring": 9, "maxdict": 1, "maxset": 2}}
+            if kind == "invariant":
+                c["fields"] = list(params)
+                c["expr"] = implexpr.self_expr(expr, c["fields"])
+                c["params"] = ["self"]
+            yield "limits-changed-after-declaration", c
+    # several contracts declared in one scope, violated in different orders: what one message shows (e.g. _ARGS / _KWARGS)
+    # does not depend on which sibling contract was violated before
+    sibs = [{"dom": "expr", "expr": "len(_ARGS) > 5 or x > 100", "env": {"x": 1, "y": 2}, "params": ["_ARGS", "x"], "fparams": ["x", "y"], "layout": "oneline"},
+            {"dom": "expr", "expr": "x > 100", "env": {"x": 1, "y": 2}, "params": ["x", "y"], "layout": "oneline"},
+            {"dom": "expr", "expr": "len(_KWARGS) > 5 or x > 100", "env": {"x": 1, "y": 2}, "params": ["_KWARGS", "x"], "fparams": ["x", "y"], "layout": "oneline"},
+            {"dom": "expr", "expr": "y > 100", "env": {"x": 1, "y": 2}, "params": ["y"], "fparams": ["x", "y"], "layout": "multiline"},
+            {"dom": "expr", "expr": "x > cl + 100", "env": {"x": 1, "y": 2}, "params": ["x"], "fparams": ["x", "y"], "layout": "oneline", "kind": "ensure"}]
+    yield "sibling-contracts-any-order", {"dom": "batchorder", "cases": sibs,
+                                          "orders": [[0, 1, 2, 3, 4], [4, 3, 2, 1, 0], [1, 0, 3, 2, 4], [2, 4, 0, 1, 3]]}
     for params, expr, env in HIDDEN:
         for kind in ("require", "ensure"):
             yield "unrepresentable-arguments", {"dom": "expr", "expr": expr.replace("implexpr_tick", "tick"), "env": env, "params": list(params),
@@ -162,12 +181,16 @@ nontrivial_key = lambda case, mos: exprprop.kinds_key(case)  # noqa: E731
 
 
 def run_impl(case):
+    if case["dom"] == "batchorder":
+        return exprprop.run_batchorder(case)
     if case["dom"] == "hashseed":
         return exprprop.run_hashseed(case)
     return implexpr.run_batch([case])[0]
 
 
 def spec(case, mos, io):
+    if case["dom"] == "batchorder":
+        return exprprop.check_batchorder(case, io)
     if case["dom"] == "hashseed":
         return exprprop.check_hashseed(case, io)
     fails = exprprop.check_determinism(case, io, mos)
